@@ -47,7 +47,9 @@ AtStart(h) == IF LimitAtUse(h) = 0 THEN "zero" ELSE IF LimitAtUse(h) # NoLimit T
 Uses(p) == CASE p = "act" -> {"actor-command-line", "actor-shell", "actor-file", "actor-source", "stdin-from-program"}
              [] p = "assert" -> {"run", "shell", "percent", "file-from-stdout", "transformer-run", "text-matcher-run",
                                  "file-matcher-run", "exit-code-from", "stdout-from", "env-from-stdout",
-                                 "stdout-from-transformed"}      \* (the program is the TRANSFORMER of another's output)
+                                 "stdout-from-transformed",      \* (the program is the TRANSFORMER of another's output)
+                                 "prune-matcher-run",            \* (... the matcher that prunes a recursive dir-contents)
+                                 "selection-matcher-run"}
              [] OTHER -> {"run", "shell", "percent", "file-from-stdout", "transformer-run", "env-from-stdout"}
 Dur(c) == IF c = "short" THEN ShortDur ELSE LongDur
 
